@@ -593,9 +593,19 @@ func (vfs *MemFS) OpenFile(name string, flag int, perm fs.FileMode) (avfs.File, 
 	at := int64(0)
 	om := avfs.ToOpenMode(flag)
 
-	parent, child, pi, err := vfs.searchNode(name, slmEval)
+	slMode := slmEval
+	if om&avfs.OpenCreateExcl != 0 {
+		// O_CREATE|O_EXCL : a symbolic link in the last element is not followed, the name exists.
+		slMode = slmLstat
+	}
+
+	parent, child, pi, err := vfs.searchNode(name, slMode)
 	if err != vfs.err.FileExists && !vfs.isNotExist(err) || !pi.IsLast() {
 		return (*MemFile)(nil), &fs.PathError{Op: op, Path: name, Err: err}
+	}
+
+	if _, ok := child.(*symlinkNode); ok && err == vfs.err.FileExists {
+		return (*MemFile)(nil), &fs.PathError{Op: op, Path: name, Err: vfs.err.FileExists}
 	}
 
 	if vfs.isNotExist(err) {
